@@ -402,6 +402,13 @@ class ExprMixin:
                 return SV(T.Int, q if isinstance(op, ast.FloorDiv) else r)
             raise Unsupported('numeric op %s' % type(op).__name__)
         if isinstance(ta, T._Str) and isinstance(tb, T._Str) and isinstance(op, ast.Add):
+            if getattr(self.eng.prop, 'charset_mode', False) and not (z3.is_string_value(a.z) and z3.is_string_value(b.z)):
+                # named concatenation so that the character-set axioms can be triggered on it
+                cat = self.uf('str_cat', [T.Str, T.Str], T.Str)
+                app = cat(a.z, b.z)
+                st.add_axiom(('str_cat', app.get_id()), app == z3.Concat(a.z, b.z))
+                self.charset_axioms(st)
+                return SV(T.Str, app)
             return SV(T.Str, z3.Concat(a.z, b.z))
         if isinstance(op, ast.Mult) and isinstance(ta, T._Str) and isinstance(tb, T._Int):
             return self.call_spec_or_uf('rep', [a, b], st)
@@ -589,6 +596,44 @@ class ExprMixin:
             return a.z == b.z
         raise Unsupported('`is` on %s, %s' % (a.t, b.t))
 
+    def str_contains(self, z, x, st=None):
+        """x in z for strings.  In charset mode (Prop.charset_mode) membership of a one-character x is the uninterpreted
+        predicate chr_in(x, z) -- "x is one of the characters of z" -- axiomatised for literals, concatenation (str_cat)
+        and deletion of a character (A10); otherwise plain substring containment."""
+        if not getattr(self.eng.prop, 'charset_mode', False) or st is None:
+            return z3.Contains(z, x)
+        return z3.If(z3.Length(x) == 1, self.chr_in(x, z, st), z3.Contains(z, x))
+
+    def chr_in(self, x, z, st, depth=0):
+        f = self.uf('chr_in', [T.Str, T.Str], T.Bool)
+        z = z3.simplify(z) if depth == 0 else z
+        if z3.is_string_value(z):
+            return zor([x == z3.StringVal(ch) for ch in sorted(set(z.as_string()))])
+        if z3.is_app(z) and depth < 30:
+            k = z.decl().kind()
+            if k == z3.Z3_OP_ITE:
+                c, a, b = z.children()
+                return z3.If(c, self.chr_in(x, a, st, depth + 1), self.chr_in(x, b, st, depth + 1))
+            if k == z3.Z3_OP_SEQ_CONCAT:
+                return zor([self.chr_in(x, p_, st, depth + 1) for p_ in z.children()])
+        app = f(x, z)
+        self.charset_axioms(st)
+        return app
+
+    def charset_axioms(self, st):
+        f = self.uf('chr_in', [T.Str, T.Str], T.Bool)
+        rep = self.uf('str_replace', [T.Str, T.Str, T.Str], T.Str)
+        cat = self.uf('str_cat', [T.Str, T.Str], T.Str)
+        x, s_, a, t_ = z3.Strings('cx cs ca ct')
+        e = z3.StringVal('')
+        st.add_axiom(('charset', 'del'), z3.ForAll([x, s_, a], z3.Implies(z3.And(z3.Length(x) == 1, z3.Length(a) == 1),
+                     f(x, rep(s_, a, e)) == z3.And(f(x, s_), x != a)), patterns=[f(x, rep(s_, a, e))]))
+        st.add_axiom(('charset', 'cat'), z3.ForAll([x, s_, t_], z3.Implies(z3.Length(x) == 1,
+                     f(x, cat(s_, t_)) == z3.Or(f(x, s_), f(x, t_))), patterns=[f(x, cat(s_, t_))]))
+        st.add_axiom(('charset', 'one'), z3.ForAll([x, a], z3.Implies(z3.And(z3.Length(x) == 1, z3.Length(a) == 1),
+                     f(x, a) == (x == a)), patterns=[f(x, a)]))
+        st.add_axiom(('charset', 'empty'), z3.ForAll([x], z3.Not(f(x, e)), patterns=[f(x, e)]))
+
     def contains(self, c, x, st):
         """x in c"""
         if c.t is None and c.aux is not None:     # literal list/tuple of alternatives
@@ -602,7 +647,7 @@ class ExprMixin:
         if isinstance(t, T.Map):
             return z3.Select(t.dt.has(c.z), coerce(x, t.k).z)
         if isinstance(t, T._Str) and isinstance(x.t, T._Str):
-            return z3.Contains(c.z, x.z)
+            return self.str_contains(c.z, x.z, st)
         if isinstance(t, T.Tuple):
             return zor([self.eq(x, e, st) for e in self.tuple_items(c)])
         if self.is_listlike(c):
